@@ -51,6 +51,8 @@ type runLevelCase struct {
 	// by a router's time-exceeded (a path change / a forged reply), a little later by the target's
 	// proof-of-arrival reply. The hop must end up as the target's, marked as the destination.
 	RouterFirst bool
+	// Again: number of earlier runs on the same UDPv4 / TCPv4 object (see runRunLevel)
+	Again int
 }
 
 type runLevelOutcome struct {
@@ -206,14 +208,26 @@ func runRunLevel(t *testing.T, c runLevelCase) runLevelOutcome {
 		})
 		defer packets.VerifSetSourceSinkFactory(nil)
 		var run *result.TracerouteRun
+		// Again > 0 (udp, tcp): the entry-point object is run Again more times first — what is judged is
+		// the LAST run on the object, which must not see anything of the earlier ones
+		udpObj := udp.NewUDPv4(net.IP(c.Target.AsSlice()), c.Port, uint8(c.Min), uint8(c.Max), 5*time.Millisecond, 300*time.Millisecond, false)
+		tcpObj := tcp.NewTCPv4(net.IP(c.Target.AsSlice()), c.Port, uint8(c.Min), uint8(c.Max), 5*time.Millisecond, 120*time.Millisecond, c.Proto == "tcp-paris", false)
+		for k := 0; k < c.Again && c.Proto != "icmp" && !c.V6; k++ {
+			if c.Proto == "udp" {
+				udpObj.Traceroute()
+			} else {
+				tcpObj.Traceroute()
+			}
+			out.Probe = 0
+		}
 		switch c.Proto {
 		case "icmp":
 			run, out.Err = icmp.RunICMPTraceroute(context.Background(), icmp.Params{Target: c.Target, ParallelParams: common.TracerouteParallelParams{TracerouteParams: common.TracerouteParams{
 				MinTTL: uint8(c.Min), MaxTTL: uint8(c.Max), TracerouteTimeout: 300 * time.Millisecond, PollFrequency: 20 * time.Millisecond, SendDelay: 5 * time.Millisecond}}})
 		case "udp":
-			run, out.Err = udp.NewUDPv4(net.IP(c.Target.AsSlice()), c.Port, uint8(c.Min), uint8(c.Max), 5*time.Millisecond, 300*time.Millisecond, false).Traceroute()
+			run, out.Err = udpObj.Traceroute()
 		default:
-			run, out.Err = tcp.NewTCPv4(net.IP(c.Target.AsSlice()), c.Port, uint8(c.Min), uint8(c.Max), 5*time.Millisecond, 120*time.Millisecond, c.Proto == "tcp-paris", false).Traceroute()
+			run, out.Err = tcpObj.Traceroute()
 		}
 		if run != nil {
 			out.Hops = run.Hops
@@ -251,6 +265,9 @@ func genRunLevel(r *hx.RNG) runLevelCase {
 	}
 	c.Noise = r.Intn(3)
 	c.FastReply = r.Chance(1, 3)
+	if r.Chance(1, 4) {
+		c.Again = r.Range(1, 2)
+	}
 	return c
 }
 
@@ -314,6 +331,10 @@ func runLevelStream(t *testing.T, rep *hx.Report, rng *hx.RNG, n int) {
 		rep.Hit(fmt.Sprintf("run:%s:v6=%v", c.Proto, c.V6))
 		if c.FastReply {
 			rep.Hit("run:" + c.Proto + ":reply-during-write")
+		}
+		if c.Again > 0 && c.Proto != "icmp" && !c.V6 {
+			rep.Hit("run:" + c.Proto + ":earlier-runs-on-the-same-object")
+			replay["earlier_runs_on_the_same_object"] = c.Again
 		}
 		if o.PortFree != "" {
 			replay["port_free"] = o.PortFree
